@@ -24,6 +24,12 @@ CLAIMED["C13"] = ("fault_enumeration", "allocation-fault injection (budget sweep
 CLAIMED["C07"] = ("exploration", "seeded task schedules through a simulated thread pool (hook H2) plus real rayon pools and concurrent callers, against a no-pool reference",
     "Bit-identical samples and identical Ok/Err verdicts across 6-32 seeded task-granular schedules per stream through the simulated pool (incl. deferred background renders), repetition, real pools of several sizes and concurrent callers. Sampling of schedules, task-granular.",
     "The simulated pool executes tasks atomically on one OS thread; overlapping-memory races are outside it (C02).")
+CLAIMED["C08"] = ("fault_enumeration", "fail-the-k-th-tracked-allocation (hook H1) for sampled / every k of a render, followed by seeded post-failure call histories, all under the shuttle scheduler so that a wedged call is a detected deadlock",
+    "For each program the fault position k ranges over 24 sampled values (quick) or every k < N (thorough); after the failure and after lifting the fault a seeded history of calls must all return and every Ok must equal a never-failed decode. Programs are sampled.",
+    "Hook H1 (fault switch) and H3a (shuttle-owned Mutex/Condvar) are trusted. Single caller.")
+CLAIMED["C20"] = ("exploration", "2-3 caller threads on a shared image under shuttle's seeded random and PCT schedulers (hook H3), with and without an injected fault, against a sequential reference",
+    "Seeded schedule search (random + PCT) over the synchronisation points of the render-handle protocol with 2-3 callers and optional background tasks; deadlock, lost wake-up (spurious error), disagreement with the sequential result and concurrent execution of one frame are violations. Sampling, not enumeration.",
+    "Only shuttle-owned primitives are scheduling points. Known finding F5 (reset() of an evicted base under a concurrent caller) is reported as KNOWN-FINDING.")
 NOT_APPLICABLE = {}
 
 def main():
@@ -48,7 +54,7 @@ def main():
     not_applicable = [{"property_id": p["id"], "reason": na[p["id"]]} for p in props if p["id"] not in claimed]
     m = {
         "version": 1,
-        "setup_cmd": "python3 tools/build.py plain",
+        "setup_cmd": "python3 tools/build.py plain sched",
         "hooks": {
             "guard": "--cfg jxl_oxide_verif (H1 alloc counters/fail-from-k, H2 simulated thread pool, H3b render probe) and --cfg jxl_oxide_verif_shuttle (H3a: render-handle Mutex/Condvar from shuttle)",
             "enable": "RUSTFLAGS='--cfg jxl_oxide_verif' via tools/build.py; --cfg jxl_oxide_verif_shuttle only builds through the shadow manifests generated under /verif/shadow (shuttle is not a dependency of the repository)",
